@@ -71,6 +71,11 @@ CLAIMED = {
     design='5 C11',
     note='Trusted: myokit stub contract; the reference applies the same chi calls on a fresh model in canonical order (administration, regimen, outputs, renaming, sensitivities); documented resets (set_outputs / set_administration reset sensitivities; an output rename lives with the selected output). Known finding: renames lost when an administration rebuilds the name tables.',
     technique='exhaustive bounded call histories executed symbolically over an uninterpreted-solver stub; term/SMT equality of observables'),
+ 'C19': dict(
+    text='Bounded exhaustive evaluation sequences with symbolic points (sequential clause): all sequences of 2 (3) evaluations (value, pointwise, value+sensitivities at two points) on one object or interleaved over two sibling objects built from the same user models, for 9 kinds of evaluable objects incl. dosed PKPD likelihoods over the myokit stub and objects with fixed parameters; each result term is decided equal to the same single evaluation on a fresh object and consistent across operations (S1 score = value, sum pointwise = value), inputs are compared cell by cell with a snapshot, and mutations of the user models after construction leave the derived objects unchanged.',
+    design='5 C19',
+    note='Trusted: myokit stub (protocol and sensitivity request are part of the solution term, so a rebuilt simulator that lost them is visible), term identity / z3. Outside: forked-worker evaluation (pints.ParallelEvaluator) and data frames.',
+    technique='exhaustive bounded evaluation sequences executed symbolically; term/SMT equality against fresh-object evaluations'),
 }
 
 NOT_APPLICABLE = {
